@@ -37,6 +37,11 @@ CLAUSES = {
     "B.mid.inside": "get_mid_point(l, r, d) lies strictly inside (l, r)",
     "B.mid.equal_prob": "get_mid_point(l, r, d) splits (l, r) into two parts of equal probability (oracle cdf)",
     "B.grid.component": "after real refinement every component grid's point weights are >= 0 and sum to 1; the combined weights sum to 1",
+    "B.w.idempotent": "history: get_mid_point asked twice gives the same point; set_grid with the same tree after the grid object served another tree of the same size gives the same weights; a brand-new operation+grid gives the same weights; weight arrays handed out earlier are unchanged",
+    "B.mom.combined_rule": "at every stop E == sum_i w_i g(x_i) and Var == |sum_i w_i g(x_i)^2 - E^2| for the public combined rule get_points_and_weights() (model evaluated by the harness), for all three components",
+    "B.mom.idempotent": "every further statistics query on the same evaluated instance (after the node-based query, calculate_expectation, calculate_moment, get_points_and_weights) returns the values of the first query; get_result() is unchanged by the queries; calculate_multiple_expectation_and_variance twice gives the same",
+    "B.mom.report_stable": "E / Var objects handed out by a query (kept without copying) still hold the reported values after later queries and after continue_adaptive_refinement",
+    "B.mom.repeatable": "the same configuration run again later in the same process (other configurations in between) on fresh objects gives the same E, Var and point count",
     "B.mom.returns": "refinement and calculate_expectation_and_variance return normally",
     "B.mom.affine_E": "E[c g + e] == c E[g] + e",
     "B.mom.affine_Var": "Var[c g + e] == c^2 Var[g]",
@@ -127,7 +132,7 @@ def _f(x):
 
 def build(setup, model=None, out_len=1):
     """Real operation + real weighted grid for a set-up dict."""
-    from sparseSpACE.GridOperation import UncertaintyQuantification
+    from sparseSpACE.GridOperation import UncertaintyQuantificationTesting as UncertaintyQuantification   # subclass: adds calculate_multiple_expectation_and_variance
     from sparseSpACE.Grid import GlobalTrapezoidalGridWeighted
     from sparseSpACE.Function import FunctionCustom
     a = np.array([_f(x) for x in setup["a"]])
@@ -156,6 +161,10 @@ def check_mid(ctx, grid, l, r, k, cdf, wc):
         done = True
     if not done:
         return None
+    with ctx.guard("B.w.returns", S_MID, wc + "raises-second-call"):
+        with quiet():
+            mid2 = grid.get_mid_point(l, r, k)
+        ctx.check("B.w.idempotent", mid2 == mid, S_MID, wc + "midpoint-second-call", "get_mid_point(%r, %r, %d): first %r, second %r" % (l, r, k, mid, mid2))
     inside = l < mid < r
     ctx.check("B.mid.inside", inside, S_MID, wc + "outside", "get_mid_point(%r, %r, %d) = %r" % (l, r, k, mid))
     if not inside:
